@@ -133,3 +133,126 @@ pub fn cmd_fuzz(args: &[String]) -> i32 {
     eprintln!("fuzz: {} events", n);
     0
 }
+
+fn robust_reason(o: &calls::Out, len: usize) -> Option<&'static str> {
+    let k = o.res["k"].as_str().unwrap_or("");
+    if !matches!(k, "ok" | "inc" | "err" | "fail") { return Some("OutcomeClass"); }
+    if o.fmt_panic.is_some() { return Some("FormatReturns"); }
+    if o.alloc > 1024 * len + 65536 { return Some("AllocBound"); }
+    if !o.rem_ok { return Some("RemainderIsSuffix"); }
+    if k == "ok" {
+        let p = o.res["p"].as_i64().unwrap_or(-1);
+        if p < 0 || p as usize > len { return Some("RemainderIsSuffix"); }
+        if o.stats.max_end > p { return Some("SlicesInsideConsumed"); }
+    }
+    if o.stats.foreign > 0 { return Some("NoForeignSlice"); }
+    None
+}
+
+fn event(id: &str, name: &str, a: &Args, input: &[u8], o: &calls::Out) -> Value {
+    json!({"id": id, "fn": name, "a": args_json(a), "input": [{"lit": input, "fill": [0,0,0]}],
+           "res": o.res, "rem_ok": o.rem_ok, "alloc": o.alloc, "len": input.len(),
+           "fmt_panic": o.fmt_panic.clone().unwrap_or_default(), "foreign": o.stats.foreign, "max_end": o.stats.max_end})
+}
+
+fn arg_variants(name: &str) -> Vec<Args> {
+    let base = Args { len: 0, ext: false, ct: 22, ver: 0x0303, sub: "dh".into() };
+    let mut v = vec![];
+    let uses_len = name.ends_with("newsessionticket") || name.ends_with("serverkeyexchange") || name.ends_with("serverdone")
+        || name.ends_with("certificateverify") || name.ends_with("clientkeyexchange") || name.ends_with("msg_finished") || name.ends_with("message_heartbeat");
+    if uses_len { for l in [0usize, 1, 2, 3, 4, 5, 255] { v.push(Args { len: l, ..base.clone() }); } }
+    else if name.ends_with("record_with_header") { for ct in [20u8, 21, 22, 23, 24, 0] { for l in [0usize, 2, 3] { v.push(Args { ct, len: l, ..base.clone() }); } } }
+    else if name == "parse_content_and_signature" { for s in ["dh", "ecdh", "ec"] { for e in [false, true] { v.push(Args { sub: s.into(), ext: e, ..base.clone() }); } } }
+    else { v.push(base); }
+    v
+}
+
+/// exhaust2 <out.ndjson> [maxlen]: ALL inputs of length 0..=2 over all 256 byte values, for every entry point
+/// and its argument variants; the observation invariants are evaluated in-process on every call, offenders
+/// and one sample per (function, outcome) are written out as full events.
+pub fn cmd_exhaust2(args: &[String]) -> i32 {
+    let mut out = BufWriter::new(std::fs::File::create(&args[0]).expect("create"));
+    let fns: Vec<&str> = calls::ALL_FNS.iter().copied().chain(["two_step", "TlsMessageAlert::parse"]).collect();
+    let nthreads = std::thread::available_parallelism().map(|n| n.get()).unwrap_or(4).min(12);
+    let chunks: Vec<Vec<&str>> = (0..nthreads).map(|t| fns.iter().copied().skip(t).step_by(nthreads).collect()).collect();
+    let results: Vec<(Vec<Value>, u64)> = std::thread::scope(|s| {
+        let hs: Vec<_> = chunks.iter().map(|mine| s.spawn(move || {
+            let mut lines: Vec<Value> = Vec::new();
+            let mut calls_n = 0u64;
+            for name in mine {
+                for a in arg_variants(name) {
+                    let mut classes: HashMap<String, u64> = HashMap::new();
+                    let mut offenders = 0;
+                    let mut buf = [0u8; 2];
+                    for n in 0..=65792u32 {
+                        let input: &[u8] = if n == 0 { &buf[..0] } else if n <= 256 { buf[0] = (n - 1) as u8; &buf[..1] }
+                                           else { let x = n - 257; buf[0] = (x >> 8) as u8; buf[1] = x as u8; &buf[..2] };
+                        let input = input.to_vec();
+                        if let Some(o) = calls::call(name, &a, &input) {
+                            calls_n += 1;
+                            let k = o.res["k"].as_str().unwrap_or("").to_string();
+                            let cls = if k == "err" || k == "fail" { format!("{}:{}", k, o.res["e"].as_str().unwrap_or("")) } else { k };
+                            let first = !classes.contains_key(&cls);
+                            *classes.entry(cls.clone()).or_insert(0) += 1;
+                            let bad = robust_reason(&o, input.len());
+                            if bad.is_some() { offenders += 1; }
+                            if (bad.is_some() && offenders <= 5) || first {
+                                let mut e = event(&format!("x2:{}:{}:{}", name, a.len, n), name, &a, &input, &o);
+                                e["kind"] = json!(if bad.is_some() { "offender" } else { "sample" });
+                                e["broken"] = json!(bad.unwrap_or(""));
+                                lines.push(e);
+                            }
+                        }
+                    }
+                    lines.push(json!({"kind": "summary", "fn": name, "a": args_json(&a), "classes": classes, "offenders": offenders}));
+                }
+            }
+            (lines, calls_n)
+        })).collect();
+        hs.into_iter().map(|h| h.join().unwrap()).collect()
+    });
+    let mut total = 0;
+    for (lines, n) in results { total += n; for l in lines { writeln!(out, "{}", l).unwrap(); } }
+    out.flush().unwrap();
+    eprintln!("exhaust2: {} calls", total);
+    0
+}
+
+/// locality <cases.ndjson> <out.ndjson>: for every case whose input is accepted, run the same parser on exactly the
+/// consumed bytes and on those bytes followed by suffixes (one byte; the structure itself; a header declaring 65535)
+/// in separately allocated buffers.
+pub fn cmd_locality(args: &[String]) -> i32 {
+    let inp = BufReader::new(std::fs::File::open(&args[0]).expect("open"));
+    let mut out = BufWriter::new(std::fs::File::create(&args[1]).expect("create"));
+    crate::observe::spawn_watchdog(format!("{}.timeout", args[1]), 5);
+    let mut n = 0u64;
+    for line in inp.lines() {
+        let c: Value = serde_json::from_str(&line.unwrap()).expect("json");
+        let name = c["fn"].as_str().unwrap_or("");
+        let a = Args::from_json(c.get("a"));
+        let input = crate::bytes_of(&c["input"]);
+        let o0 = match calls::call(name, &a, &input) { Some(o) => o, None => continue };
+        if o0.res["k"] != "ok" { continue; }
+        let p = o0.res["p"].as_u64().unwrap_or(0) as usize;
+        if p > input.len() { continue; }
+        let b = input[..p].to_vec();
+        let base = calls::call(name, &a, &b).unwrap();
+        let suffixes: Vec<Vec<u8>> = vec![vec![0], b.clone(), vec![22, 3, 3, 255, 255], vec![255, 255, 255, 255, 255, 255, 255, 255, 255]];
+        let mut exts = Vec::new();
+        for x in &suffixes {
+            let mut bx = Vec::with_capacity(b.len() + x.len());
+            bx.extend_from_slice(&b);
+            bx.extend_from_slice(x);
+            let o = calls::call(name, &a, &bx).unwrap();
+            exts.push(event("", name, &a, &[], &o).as_object().map(|m| { let mut m = m.clone(); m.remove("input"); m.insert("len".into(), json!(bx.len())); Value::Object(m) }).unwrap());
+            n += 1;
+        }
+        let mut be = event("", name, &a, &[], &base);
+        be["len"] = json!(b.len());
+        be.as_object_mut().unwrap().remove("input");
+        writeln!(out, "{}", json!({"id": c["id"], "fn": name, "a": args_json(&a), "input": [{"lit": b, "fill": [0,0,0]}], "p": p, "base": be, "ext": exts})).unwrap();
+    }
+    out.flush().unwrap();
+    eprintln!("locality: {} extended runs", n);
+    0
+}
